@@ -3,6 +3,7 @@ package types
 import (
 	"fmt"
 	"go/token"
+	"io"
 	"iter"
 	"maps"
 	"path/filepath"
@@ -86,7 +87,7 @@ func Load(patterns []string, options ...func(c *packages.Config)) (*Universe, er
 				localPkgPaths[p.PkgPath] = directPkgPaths[p.PkgPath]
 
 				if pkgDir := p.Dir; pkgDir != "" {
-					x, _ := dirhash.HashDir(pkgDir, "", dirhash.Hash1)
+					x, _ := dirhash.HashDir(pkgDir, "", hashWithoutSumFile)
 					u.sumFile.Data[p.PkgPath] = x
 
 					if mod := pkg.Module(); mod != nil {
@@ -161,4 +162,14 @@ func (u *Universe) LocateInPackage(pos token.Pos) Package {
 		}
 	}
 	return nil
+}
+
+// hashWithoutSumFile is dirhash.Hash1 over everything but the sum file:
+// the file the hashes are recorded in is in the dir of a package in the module root,
+// hashed with it that package would be out of date after every run
+func hashWithoutSumFile(files []string, open func(string) (io.ReadCloser, error)) (string, error) {
+	files = slices.DeleteFunc(files, func(name string) bool {
+		return name == sumfile.Filename
+	})
+	return dirhash.Hash1(files, open)
 }
